@@ -107,7 +107,9 @@ func (v *PacketDslFormattor) VisitPacket(ctx *gen.PacketContext) interface{} {
 			}
 		}
 	}
-	formattedDsl.WriteString(v.getHiddenRightAtSameLine(ctx.GetStop()))
+	if ctx.GetStop() != nil {
+		formattedDsl.WriteString(v.getHiddenRightAtSameLine(ctx.GetStop()))
+	}
 	return formattedDsl.String()
 }
 
